@@ -715,7 +715,7 @@ func c15QJudge(s *c15QSpec, p c15QPath, out *c15QOut) string {
 	lim, off := c15Eff(s.Lims)
 	if strings.HasPrefix(out.Err, "error:") || out.Err == "abort" {
 		if (p.Path == "count" || p.Path == "count+find.maps") && c15QCountAliasPattern(s) && strings.Contains(out.Err, "no such column") {
-			return "F7g:" + fmt.Sprintf("Count on Select(%q): %s, Find returns %d rows (query %q)", s.Items[0].def().sql, out.Err, len(match), out.SQL)
+			return "F7g:" + fmt.Sprintf("Count on Select(%q): %s, Find returns %d rows (query %q)", c15QEffSelects(s)[0].def().sql, out.Err, len(match), out.SQL)
 		}
 		return "unexpected error " + out.Err
 	}
@@ -737,8 +737,10 @@ func c15QJudge(s *c15QSpec, p c15QPath, out *c15QOut) string {
 				set[c15QCanonWant(eval[names[0]](r))] = true
 			}
 			want = len(set)
-		} else if len(s.Items) == 1 && s.Items[0].Key == "age" && (s.Form == "str1" || s.Form == "strs" || s.Form == "slice") {
-			return "" // COUNT(`age`) skips NULLs
+		} else if eff := c15QEffSelects(s); len(eff) == 1 && eff[0].Key == "age" {
+			// Statement.Selects holds exactly the nullable column `age` (from this Select call, or from an earlier string
+			// Select that a later clause-form Select does not clear): Count sends COUNT(`age`), which skips NULLs
+			return ""
 		}
 		if int(out.Count) != want {
 			return fmt.Sprintf("Count = %d, Find returns %d rows", out.Count, want)
@@ -792,26 +794,31 @@ func c15QJudge(s *c15QSpec, p c15QPath, out *c15QOut) string {
 		return b.String()
 	}
 	if s.Distinct {
-		ws, gs := map[string]bool{}, map[string]int{}
-		for _, w := range want {
-			ws[render(w, w)] = true
+		// DISTINCT is over the FULL select list; the destination may hold a projection of it: expected = the distinct
+		// full rows, each projected to what the destination holds, as a multiset
+		full := map[string]string{}
+		for _, r := range e {
+			fw, pw := c15QElem{}, c15QElem{}
+			for _, n := range names {
+				fw[n] = c15QCanonWant(eval[n](r))
+				if p.Path == "pluck.typed" && fw[n] != "NULL" {
+					fw[n] = fw[n][2:]
+				}
+				if c15QHolds(out.Kind, n) {
+					pw[n] = fw[n]
+				}
+			}
+			full[render(fw, fw)] = render(pw, pw)
+		}
+		ws, gs := map[string]int{}, map[string]int{}
+		for _, proj := range full {
+			ws[proj]++
 		}
 		for i, g := range out.Elems {
 			gs[render(g, want0(want, i))]++
 		}
-		if len(want) == 0 && len(out.Elems) > 0 {
-			return fmt.Sprintf("%d rows returned, want none", len(out.Elems))
-		}
-		for k, n := range gs {
-			if !ws[k] {
-				return fmt.Sprintf("DISTINCT row {%s} is not a row of the table under the select list", k)
-			}
-			if n > 1 {
-				return fmt.Sprintf("DISTINCT row {%s} returned %d times", k, n)
-			}
-		}
-		if len(gs) != len(ws) {
-			return fmt.Sprintf("%d distinct rows returned, want %d", len(gs), len(ws))
+		if !reflect.DeepEqual(ws, gs) && !(len(ws) == 0 && len(gs) == 0) {
+			return fmt.Sprintf("DISTINCT rows returned %v, the chain's select list gives %v", gs, ws)
 		}
 	} else {
 		if len(out.Elems) != len(want) {
@@ -838,12 +845,28 @@ func c15QJudge(s *c15QSpec, p c15QPath, out *c15QOut) string {
 
 // c15QCountAliasPattern: the pattern of F7g-C15-count-alias — the chain's Select is ONE string of the shape
 // `<token> AS <alias>` (three runs of name characters, the middle one AS)
+// c15QEffSelects: the call that filled Statement.Selects last — this Select if it was given as strings, otherwise an
+// earlier string Select (a clause-form Select does not clear Selects)
+func c15QEffSelects(s *c15QSpec) []c15QItem {
+	strs := func(f string) bool { return f == "str1" || f == "strs" || f == "slice" }
+	if strs(s.Form) {
+		return s.Items
+	}
+	if s.Prior != nil && s.Form != "none" && strs(s.Prior.Form) {
+		return s.Prior.Items
+	}
+	return nil
+}
+
+// c15QCountAliasPattern: the pattern of F7g-C15-count-alias — Statement.Selects is ONE string of the shape
+// `<token> AS <alias>` (three runs of name characters, the middle one AS)
 func c15QCountAliasPattern(s *c15QSpec) bool {
-	if len(s.Items) != 1 || !(s.Form == "str1" || s.Form == "strs" || s.Form == "slice") {
+	items := c15QEffSelects(s)
+	if len(items) != 1 {
 		return false
 	}
-	f := strings.Fields(s.Items[0].def().sql)
-	return s.Items[0].Key == "k7" && len(f) == 3 && strings.ToUpper(f[1]) == "AS"
+	f := strings.Fields(items[0].def().sql)
+	return items[0].Key == "k7" && len(f) == 3 && strings.ToUpper(f[1]) == "AS"
 }
 
 func want0(want []c15QElem, i int) c15QElem {
